@@ -53,6 +53,7 @@ class DocGen:
         self.nums = []          # numbering definitions used
         self.used_features = set()
         self.in_note = False
+        self.in_comment = False
         self.bookmarks = []
         self.stats = {}
 
@@ -154,11 +155,15 @@ class DocGen:
                 out.append(el(rng.choice(["w:lastRenderedPageBreak", "w:annotationRef", "w:footnoteRef", "w:endnoteRef"])))
                 self.hit("ignored-inline")
             elif r < 0.86 and self.p("p_unknown"):
-                out.append(el(rng.choice(["w:ruby", "w:ptab", "w:weird", "{urn:x}y", "{urn:w14}glow"]), [], [el("w:t", [], ["HIDDEN"])] if rng.random() < 0.5 else []))
+                if rng.random() < 0.3:
+                    # an element of a foreign namespace whose local name also exists in the w namespace
+                    out.append(el(rng.choice(["{urn:ext}t", "{urn:ext}tab", "{urn:ext}br"]), [], ["FOREIGN"] if rng.random() < 0.7 else []))
+                else:
+                    out.append(el(rng.choice(["w:ruby", "w:ptab", "w:weird", "{urn:x}y", "{urn:w14}glow"]), [], [el("w:t", [], ["HIDDEN"])] if rng.random() < 0.5 else []))
                 self.hit("unknown-inline")
             elif r < 0.90 and self.p("p_note") and not self.in_note:
                 out.append(self.note_ref(depth))
-            elif r < 0.92 and self.p("p_comment") and not self.in_note:
+            elif r < 0.92 and self.p("p_comment") and not self.in_comment:
                 out.append(self.comment_ref(depth))
             elif r < 0.96 and self.p("p_image"):
                 out.append(self.drawing())
@@ -195,18 +200,20 @@ class DocGen:
 
     def comment_ref(self, depth):
         cid = str(len(self.comments))
-        saved = self.in_note
-        self.in_note = True
+        saved = (self.in_note, self.in_comment)
+        self.in_note = self.in_comment = True
+        self.comments.append(None)          # reserve the id before generating the body
+        idx = len(self.comments) - 1
         body = [self.paragraph(depth + 1, allow_deleted=False)]
-        self.in_note = saved
+        self.in_note, self.in_comment = saved
         attrs = [("w:id", cid)]
         r = self.rng.random()
         if r < 0.5:
             attrs.append(("w:initials", self.rng.choice(["AB", " ", "", "x<y"])))
         if r < 0.7:
             attrs.append(("w:author", self.rng.choice(["Ann", " ", "B & C"])))
-        self.comments.append((attrs, body))
-        self.hit("comment")
+        self.comments[idx] = (attrs, body)
+        self.hit("comment-in-note" if self.in_note else "comment")
         return el("w:commentReference", [("w:id", cid)])
 
     def add_media(self):
@@ -307,7 +314,7 @@ class DocGen:
         kind = rng.choice(["rid", "rid-anchor", "anchor", "none"])
         if kind in ("rid", "rid-anchor"):
             rid = self.fresh("rIdLink")
-            self.rels.append([rid, REL + "hyperlink", rng.choice(["http://example.com/", "http://e.x/p#old", "http://e.x/?q=<\"&>", "#frag"])])
+            self.rels.append([rid, REL + "hyperlink", rng.choice(["http://example.com/", "http://e.x/p#old", "http://e.x/?q=<\"&>", "#frag", "data:text/plain;base64,\"><b>&"])])
             attrs.append(("r:id", rid))
         if kind in ("anchor", "rid-anchor"):
             attrs.append(("w:anchor", rng.choice(["sec1", "a b", "x\"y", "_Toc<1>"])))
